@@ -40,6 +40,20 @@ class Match(dict):
     """Model of an re.Match object."""
 
 
+class CounterModel(dict):
+    """Model of collections.Counter: a mapping whose missing keys count as 0."""
+
+    def __missing__(self, key):
+        return 0
+
+    def update(self, iterable=(), **kw):  # noqa: A003
+        for k in (iterable.items() if isinstance(iterable, dict) else iterable):
+            if isinstance(iterable, dict):
+                self[k[0]] = self[k[0]] + k[1]
+            else:
+                self[k] = self[k] + 1
+
+
 class ObjRunner:
     def __init__(self, prog, rel, extra_hook=None, depth_limit=30, fork=False):
         self.fork = fork      # undetermined `if` tests (symbolic values) are explored both ways: see explore()
@@ -196,6 +210,9 @@ class ObjRunner:
                 return self.class_ref(node.id)
             if node.id in self._BUILTIN_TYPES:
                 return self._BUILTIN_TYPES[node.id]
+            imp = self._imported_class(node, node.id)
+            if imp is not None:
+                return self.class_ref(imp)
             return NotImplemented
         if node.value.id == "string" and hasattr(__import__("string"), node.attr) and isinstance(getattr(__import__("string"), node.attr), str):
             return getattr(__import__("string"), node.attr)
@@ -361,7 +378,11 @@ class ObjRunner:
         if isinstance(call.func, ast.Attribute) and isinstance(call.func.value, ast.Name) and call.func.value.id not in interp.env \
                 and self.cinfo(call.func.value.id) is not None and self.find(call.func.value.id, call.func.attr) is not None:
             clsobj = {"__class__": call.func.value.id, "__is_class__": True}
-            return self.run_function(self.find(call.func.value.id, call.func.attr), clsobj, args, kw)
+            f_ = self.find(call.func.value.id, call.func.attr)
+            decos_ = {U(d) for d in f_.node.decorator_list}
+            if not decos_ & {"staticmethod", "classmethod"} and args and isinstance(args[0], dict) and "__class__" in args[0] and not args[0].get("__is_class__"):
+                return self.run_function(f_, args[0], args[1:], kw)  # Base.method(self, ...): the explicit form of a call on the instance
+            return self.run_function(f_, clsobj, args, kw)
         if isinstance(call.func, ast.Attribute) and isinstance(call.func.value, ast.Name) and call.func.value.id not in interp.env:
             target_rel = self._module_alias(call, call.func.value.id)
             if target_rel is not None and f"{target_rel}::{call.func.attr}" in self.prog.funcs:
@@ -426,6 +447,11 @@ class ObjRunner:
                 return getattr(str, call.func.attr)(*args, **kw)  # unbound form str.ljust(s, n)
             except (TypeError, ValueError) as exc:
                 raise Flow("raise", f"{type(exc).__name__}({str(exc)!r})", call) from None
+        if name in ("Counter", "collections.Counter") and name not in interp.env and len(args) <= 1 and not kw:
+            c_ = CounterModel()
+            if args:
+                c_.update(args[0])
+            return c_
         if name in ("set", "frozenset", "dict") and name not in interp.env and len(args) <= 1 and not kw:
             return {"set": set, "frozenset": frozenset, "dict": dict}[name](*args)
         if isinstance(call.func, ast.Name) and self.cinfo(name) is not None:
@@ -458,6 +484,22 @@ class ObjRunner:
                         key = f"{src_dir}{st.module.replace('.', '/')}.py::{a.name}"
                         if key in self.prog.funcs:
                             return self.prog.funcs[key]
+        return None
+
+    def _imported_class(self, node, name):
+        """Repository class bound by `from .m import Name [as alias]` in the module of the node: its own name, or None."""
+        mod = getattr(node, "_module", None)
+        if mod is None:
+            return None
+        base = mod.rel.rsplit("/", 1)[0] + "/" if "/" in mod.rel else ""
+        for st in mod.tree.body:
+            if isinstance(st, ast.ImportFrom) and st.level >= 1 and st.module:
+                src_dir = base
+                for _ in range(st.level - 1):
+                    src_dir = src_dir.rstrip("/").rsplit("/", 1)[0] + "/" if "/" in src_dir.rstrip("/") else ""
+                for a in st.names:
+                    if (a.asname or a.name) == name and f"{src_dir}{st.module.replace('.', '/')}.py::{a.name}" in self.prog.classes:
+                        return a.name
         return None
 
     def _module_alias(self, call, alias):
